@@ -18,6 +18,17 @@ structure Prog (app : App) : Prop where
   nofwd : ∀ g ∈ app.instrs, fwdOf g = {}
   sl : StraightLine app = true
 
+/-- the same with `ret` allowed (package R60b) -/
+structure ProgR (app : App) : Prop where
+  small : app.instrs.length < 250
+  nofwd : ∀ g ∈ app.instrs, fwdOf g = {}
+  sl : StraightLineRet app = true
+
+theorem Prog.toR {app : App} (h : Prog app) : ProgR app := ⟨h.small, h.nofwd, slr_of_sl app h.sl⟩
+
+/-- the runner is a `ret` -/
+def isRet (x : Runner) : Prop := (x.instr.instructionType == Gen.InstructionType.Ret) = true
+
 /-- the state between the units of one tick: front, back, and the occupancy facts the execute units need -/
 structure Mid (app : App) (s : State) (a : Arch) (i : Nat) : Prop where
   front : ∃ n0, a.pc = pcOf n0 ∧ Front app s n0
@@ -27,6 +38,10 @@ structure Mid (app : App) (s : State) (a : Arch) (i : Nat) : Prop where
   room : s.writeBus.buffer.length + s.executeBus.queue.length ≤ 2
   stamps : ∀ e ∈ s.writeBus.buffer, e.1 ≤ s.cycles + 1
   wbl : s.writeBus.bufferLength = 2
+  /-- a `ret` that can be taken by an execute unit is alone in the queue, and only the first unit finds it -/
+  retQ : 1 ≤ s.eus.length → ∀ x ∈ s.executeBus.queue, isRet x → s.executeBus.queue = [x] ∧ i = 0
+  /-- a `ret` issued in this cycle is alone on the execute bus -/
+  retBuf : ∀ e ∈ s.executeBus.buffer, isRet e.2 → s.executeBus.queue = [] ∧ s.executeBus.buffer = [(s.cycles + 1, e.2)]
 
 /-- what the execute units leave alone -/
 structure EuKeep (s s' : State) : Prop where
@@ -50,13 +65,23 @@ theorem runners_cons (s : State) (x : Runner) (q : List Runner) (h : s.executeBu
     runners s = x :: runners { s with executeBus := { s.executeBus with queue := q } } := by
   simp only [runners, BufferedBus.inside, h, List.cons_append]
 
-/-- one execute unit: nothing to do, or the next step of the unpipelined machine, or its defined error -/
-theorem euCycle_sim (app : App) (hp : Prog app) (s s' : State) (a : Arch) (i : Nat) (out : EuOut)
+/-- an execute unit has executed the `ret` the unpipelined machine halts with -/
+structure Retired (app : App) (s s' : State) (a : Arch) : Prop where
+  halt : ∃ c, stepArch Proofs.Mvp4.dc app a = .halt .ret c
+  back : Back s'.ctx s'.writeBus.inside s'.executeBus.inside a
+  xq : s'.executeBus.queue = []
+  eus : ∀ eu ∈ s'.eus, eu.co = .none ∧ eu.memory = []
+  keep : EuKeep s s'
+
+/-- one execute unit: nothing to do, or the next step of the unpipelined machine, or its defined error, or its `ret` -/
+theorem euCycle_sim (app : App) (hp : ProgR app) (s s' : State) (a : Arch) (i : Nat) (out : EuOut)
     (hm : Mid app s a i) (hi : i < s.eus.length) (h : euCycle app s i = .ok (s', out)) :
     (out = .none ∧ ∃ a', (a' = a ∨ ∃ c, stepArch Proofs.Mvp4.dc app a = .next a' c) ∧ Mid app s' a' (i + 1) ∧ EuKeep s s') ∨
-    (out = .err ∧ ∃ c, stepArch Proofs.Mvp4.dc app a = .halt .err c) := by
+    (out = .err ∧ ∃ c, stepArch Proofs.Mvp4.dc app a = .halt .err c) ∨
+    (out = .ret ∧ Retired app s s' a) := by
   obtain ⟨eu, hget⟩ := get_lt s.eus i hi
   obtain ⟨hco, hmem⟩ := hm.eus eu (List.mem_of_getElem? hget)
+  have hK : 1 ≤ s.eus.length := by omega
   unfold euCycle at h
   simp only [hget, hco] at h
   cases hq : s.executeBus.queue with
@@ -65,7 +90,8 @@ theorem euCycle_sim (app : App) (hp : Prog app) (s s' : State) (a : Arch) (i : N
     obtain ⟨rfl, rfl⟩ := h
     left
     refine ⟨rfl, a, Or.inl rfl, ?_, ⟨rfl, rfl, rfl, rfl, rfl, rfl, rfl, rfl, rfl, by simp only [hq]; exact Nat.le_refl _⟩⟩
-    exact ⟨hm.front, hm.back, hm.eus, Nat.le_succ_of_le hm.wbi, hm.room, hm.stamps, hm.wbl⟩
+    refine ⟨hm.front, hm.back, hm.eus, Nat.le_succ_of_le hm.wbi, hm.room, hm.stamps, hm.wbl, ?_, hm.retBuf⟩
+    intro _ x hx; simp only [hq] at hx; cases hx
   | cons x q =>
     simp only [get_some _ x q hq] at h
     obtain ⟨n0, hpc, hf⟩ := hm.front
@@ -79,19 +105,36 @@ theorem euCycle_sim (app : App) (hp : Prog app) (s s' : State) (a : Arch) (i : N
     have hnfx := hp.nofwd x.instr (List.mem_of_getElem? hxok.2)
     have hback := hm.back
     rw [hxin] at hback
-    obtain ⟨hexe, herr⟩ := hback.execute hp.small hpc hxok hslx hnfx
+    obtain ⟨hexe, hretc, herr⟩ := hback.executeR hp.small hpc hxok hslx hnfx
+    -- no `ret` is left in the queue behind `x`
+    have hnoret : ∀ y ∈ q, ¬ isRet y := by
+      intro y hy hry
+      have := (hm.retQ hK y (by rw [hq]; exact List.mem_cons_of_mem _ hy) hry).1
+      rw [hq] at this
+      simp only [List.cons.injEq] at this
+      obtain ⟨_, hq'⟩ := this
+      subst hq'; cases hy
+    have hnobuf : ∀ e ∈ s.executeBus.buffer, ¬ isRet e.2 := by
+      intro e he hre
+      have := (hm.retBuf e he hre).1
+      rw [hq] at this; cases this
     -- the unit prepares and runs at once
     have hcan : s.writeBus.canAdd = true := by
       have := hm.room; rw [hq] at this; simp only [List.length_cons] at this
       simp only [BufferedBus.canAdd, hm.wbl, bne_iff_ne, ne_eq]; omega
     have hsl' := hslx
-    simp only [slInstr, Bool.and_eq_true, Bool.not_eq_true', Gen.InstructionType.IsBranch, Bool.or_eq_false_iff] at hsl'
-    obtain ⟨⟨_, hub, hcb⟩, _⟩ := hsl'
+    simp only [slrInstr, Bool.and_eq_true, Bool.not_eq_true', Gen.InstructionType.IsBranch, Bool.or_eq_false_iff] at hsl'
+    obtain ⟨_, hub, hcb⟩ := hsl'
     unfold coPrepareRun at h
-    simp only [hcan, Bool.not_true, Bool.false_eq_true, if_false, buAssert, hub, hcb, sl_memoryRead x.instr hslx,
+    simp only [hcan, Bool.not_true, Bool.false_eq_true, if_false, buAssert, hub, hcb, slr_memoryRead x.instr hslx,
       List.isEmpty_nil, Bool.not_true] at h
     unfold coRun at h
     simp only [hmem, setEu] at h
+    have heus' : ∀ eu' ∈ s.eus.set i { co := .none, memory := [], runner := some x }, eu'.co = .none ∧ eu'.memory = [] := by
+      intro eu' hmem'
+      rcases List.mem_or_eq_of_mem_set hmem' with h1 | h1
+      · exact hm.eus eu' h1
+      · subst h1; exact ⟨rfl, rfl⟩
     cases hr : x.instr.run s.ctx app.labels x.pc [] 0#32 with
     | error f =>
       cases f with
@@ -99,46 +142,77 @@ theorem euCycle_sim (app : App) (hp : Prog app) (s s' : State) (a : Arch) (i : N
       | err msg =>
         simp only [hr, pure, Except.pure, Except.ok.injEq, Prod.mk.injEq] at h
         obtain ⟨_, rfl⟩ := h
-        right; exact ⟨rfl, herr msg hr⟩
+        right; left; exact ⟨rfl, herr msg hr⟩
     | ok e =>
-      obtain ⟨a', hstep, hpc', hback', hret, hmc, hpcc⟩ := hexe e hr
-      simp only [hr, hret, hmc, hpcc, Bool.false_eq_true, if_false, bind, Except.bind, pure, Except.pure, hub,
-        Except.ok.injEq, Prod.mk.injEq] at h
-      obtain ⟨rfl, rfl⟩ := h
-      left
-      refine ⟨rfl, a', Or.inr hstep, ?_, ⟨rfl, rfl, by simp only [List.length_set], rfl, rfl, rfl, rfl, rfl, rfl,
-        by simp only [hq, List.length_cons]; omega⟩⟩
-      refine ⟨⟨n0 + 1, hpc', ?_⟩, ?_, ?_, ?_, ?_, ?_, hm.wbl⟩
-      · have hlen : (runners s).length = (runners { s with executeBus := { s.executeBus with queue := q } }).length + 1 := by
-          rw [hrun]; simp only [List.length_cons]
-        refine ⟨hchain', ?_, ?_, hf.clean, hf.dlen, hf.duOk, hf.duRet⟩
-        · have := hf.inRange; rw [hlen] at this
-          simp only [runners] at this ⊢; omega
-        · have := hf.pcs; rw [hlen] at this
-          have e1 : n0 + 1 + (runners { s with executeBus := { s.executeBus with queue := q } }).length =
-              n0 + ((runners { s with executeBus := { s.executeBus with queue := q } }).length + 1) := by omega
-          simp only [runners] at this e1 ⊢
-          rw [e1]; exact this
-      · simp only [inside_add]; exact hback'
-      · intro eu' hmem'
-        rcases List.mem_or_eq_of_mem_set hmem' with h1 | h1
-        · exact hm.eus eu' h1
-        · subst h1; exact ⟨rfl, rfl⟩
-      · simp only [BufferedBus.add, List.length_append, List.length_cons, List.length_nil]; have := hm.wbi; omega
-      · simp only [BufferedBus.add, List.length_append, List.length_cons, List.length_nil]
-        have := hm.room; rw [hq] at this; simp only [List.length_cons] at this; omega
-      · intro en hen
-        simp only [BufferedBus.add, List.mem_append, List.mem_singleton] at hen
-        rcases hen with hen | hen
-        · exact hm.stamps en hen
-        · subst hen; exact Int.le_refl _
+      cases hret : e.Return with
+      | true =>
+        obtain ⟨hhalt, hty⟩ := hretc e hr hret
+        simp only [hr, hret, if_true, pure, Except.pure, Except.ok.injEq, Prod.mk.injEq] at h
+        obtain ⟨rfl, rfl⟩ := h
+        right; right
+        have hq0 : q = [] := by
+          have := (hm.retQ hK x (by rw [hq]; exact List.mem_cons_self) hty).1
+          rw [hq] at this
+          simp only [List.cons.injEq, true_and] at this
+          exact this
+        subst hq0
+        exact ⟨rfl, hhalt, hback.dropHead, rfl, heus', ⟨rfl, rfl, by simp only [List.length_set], rfl, rfl, rfl, rfl, rfl, rfl,
+          by simp only [hq, List.length_cons, List.length_nil]; omega⟩⟩
+      | false =>
+        obtain ⟨a', hstep, hpc', hback', hmc, hpcc⟩ := hexe e hr hret
+        simp only [hr, hret, hmc, hpcc, Bool.false_eq_true, if_false, bind, Except.bind, pure, Except.pure, hub,
+          Except.ok.injEq, Prod.mk.injEq] at h
+        obtain ⟨rfl, rfl⟩ := h
+        left
+        refine ⟨rfl, a', Or.inr hstep, ?_, ⟨rfl, rfl, by simp only [List.length_set], rfl, rfl, rfl, rfl, rfl, rfl,
+          by simp only [hq, List.length_cons]; omega⟩⟩
+        refine ⟨⟨n0 + 1, hpc', ?_⟩, ?_, heus', ?_, ?_, ?_, hm.wbl, ?_, ?_⟩
+        · have hlen : (runners s).length = (runners { s with executeBus := { s.executeBus with queue := q } }).length + 1 := by
+            rw [hrun]; simp only [List.length_cons]
+          refine ⟨hchain', ?_, ?_, hf.clean, hf.dlen, hf.duOk⟩
+          · have := hf.inRange; rw [hlen] at this
+            simp only [runners] at this ⊢; omega
+          · have := hf.pcs; rw [hlen] at this
+            have e1 : n0 + 1 + (runners { s with executeBus := { s.executeBus with queue := q } }).length =
+                n0 + ((runners { s with executeBus := { s.executeBus with queue := q } }).length + 1) := by omega
+            simp only [runners] at this e1 ⊢
+            rw [e1]; exact this
+        · simp only [inside_add]; exact hback'
+        · simp only [BufferedBus.add, List.length_append, List.length_cons, List.length_nil]; have := hm.wbi; omega
+        · simp only [BufferedBus.add, List.length_append, List.length_cons, List.length_nil]
+          have := hm.room; rw [hq] at this; simp only [List.length_cons] at this; omega
+        · intro en hen
+          simp only [BufferedBus.add, List.mem_append, List.mem_singleton] at hen
+          rcases hen with hen | hen
+          · exact hm.stamps en hen
+          · subst hen; exact Int.le_refl _
+        · intro _ y hy hry; exact absurd hry (hnoret y hy)
+        · intro en hen hre; exact absurd hre (hnobuf en hen)
+
+/-- once the execute bus queue is empty the remaining execute units find nothing -/
+theorem eus_noop (app : App) : ∀ (n i : Nat) (s : State) (acc : EuAcc), i + n = s.eus.length →
+    (∀ eu ∈ s.eus, eu.co = .none ∧ eu.memory = []) → s.executeBus.queue = [] →
+    eusCycle app n i s acc = .ok (s, acc) := by
+  intro n
+  induction n with
+  | zero => intro i s acc _ _ _; simp only [eusCycle, pure, Except.pure]
+  | succ n ih =>
+    intro i s acc hlen hidle hq
+    obtain ⟨eu, hget⟩ := get_lt s.eus i (by omega)
+    have hco := (hidle eu (List.mem_of_getElem? hget)).1
+    have h1 : euCycle app s i = .ok (s, .none) := by
+      unfold euCycle
+      simp only [hget, hco, get_none _ hq, pure, Except.pure]
+    simp only [eusCycle, bind, Except.bind, h1]
+    exact ih (i + 1) s acc (by omega) hidle hq
 
 /-- the loop over the execute units -/
-theorem eusCycle_sim (app : App) (hp : Prog app) (a0 : Arch) : ∀ (n i : Nat) (s s' : State) (acc acc' : EuAcc) (k : Nat) (a : Arch),
+theorem eusCycle_sim (app : App) (hp : ProgR app) (a0 : Arch) : ∀ (n i : Nat) (s s' : State) (acc acc' : EuAcc) (k : Nat) (a : Arch),
     i + n = s.eus.length → Mid app s a i → Proofs.Mvp4.seqIter app k a0 = some a →
     acc = {} → eusCycle app n i s acc = .ok (s', acc') →
     (acc' = {} ∧ ∃ k' a', Proofs.Mvp4.seqIter app k' a0 = some a' ∧ Mid app s' a' (i + n) ∧ EuKeep s s') ∨
-    (acc'.err = true ∧ ∃ k' a', Proofs.Mvp4.seqIter app k' a0 = some a' ∧ ∃ c, stepArch Proofs.Mvp4.dc app a' = .halt .err c) := by
+    (acc'.err = true ∧ ∃ k' a', Proofs.Mvp4.seqIter app k' a0 = some a' ∧ ∃ c, stepArch Proofs.Mvp4.dc app a' = .halt .err c) ∨
+    (acc' = { ret := true } ∧ ∃ k' a', Proofs.Mvp4.seqIter app k' a0 = some a' ∧ Retired app s s' a') := by
   intro n
   induction n with
   | zero =>
@@ -153,7 +227,7 @@ theorem eusCycle_sim (app : App) (hp : Prog app) (a0 : Arch) : ∀ (n i : Nat) (
     · cases h
     · rename_i v hv
       obtain ⟨s1, out⟩ := v
-      rcases euCycle_sim app hp s s1 a i out hm (by omega) hv with ⟨rfl, a1, hstep, hm1, hk1⟩ | ⟨rfl, c, hc⟩
+      rcases euCycle_sim app hp s s1 a i out hm (by omega) hv with ⟨rfl, a1, hstep, hm1, hk1⟩ | ⟨rfl, c, hc⟩ | ⟨rfl, hret⟩
       · simp only at h
         have hk' : ∃ k1, Proofs.Mvp4.seqIter app k1 a0 = some a1 := by
           rcases hstep with rfl | ⟨c, hc⟩
@@ -161,15 +235,23 @@ theorem eusCycle_sim (app : App) (hp : Prog app) (a0 : Arch) : ∀ (n i : Nat) (
           · exact ⟨k + 1, Proofs.Mvp4.seqIter_succ hk hc⟩
         obtain ⟨k1, hk1'⟩ := hk'
         have := ih (i + 1) s1 s' acc acc' k1 a1 (by rw [hk1.eul]; omega) hm1 hk1' hacc h
-        rcases this with ⟨e1, k2, a2, e2, e3, e4⟩ | e
+        rcases this with ⟨e1, k2, a2, e2, e3, e4⟩ | e | ⟨e1, k2, a2, e2, e3⟩
         · left
           refine ⟨e1, k2, a2, e2, ?_, hk1.trans e4⟩
           have : i + 1 + n = i + (n + 1) := by omega
           rw [← this]; exact e3
-        · right; exact e
+        · right; left; exact e
+        · right; right
+          exact ⟨e1, k2, a2, e2, ⟨e3.halt, e3.back, e3.xq, e3.eus, hk1.trans e3.keep⟩⟩
       · simp only [pure, Except.pure, Except.ok.injEq, Prod.mk.injEq] at h
         obtain ⟨_, rfl⟩ := h
-        right; exact ⟨rfl, k, a, hk, c, hc⟩
+        right; left; exact ⟨rfl, k, a, hk, c, hc⟩
+      · simp only at h
+        rw [eus_noop app n (i + 1) s1 _ (by rw [hret.keep.eul]; omega) hret.eus hret.xq] at h
+        simp only [Except.ok.injEq, Prod.mk.injEq] at h
+        obtain ⟨rfl, rfl⟩ := h
+        right; right
+        exact ⟨by rw [hacc], k, a, hk, hret⟩
 
 /-! ### the write units -/
 
@@ -202,7 +284,7 @@ theorem Front.of_eq {app : App} {s s' : State} {n0 : Nat} (h : Front app s n0) (
     (e5 : s'.decodeBus = s.decodeBus) (e6 : s'.du = s.du) : Front app s' n0 := by
   have hr : runners s' = runners s := by simp only [runners, e1, e2, e3]
   exact ⟨by rw [hr]; exact h.chain, by rw [hr]; exact h.inRange, by rw [hr, e4, e5]; exact h.pcs, by rw [e4]; exact h.clean,
-    by rw [e5]; exact h.dlen, by rw [e6]; exact h.duOk, by rw [e6]; exact h.duRet⟩
+    by rw [e5]; exact h.dlen, by rw [e6]; exact h.duOk⟩
 
 /-- one write unit (idle, called with `before = -1`): nothing to do, or the oldest result is written -/
 theorem wuCycle_sim (s s' : State) (a : Arch) (j : Nat) (hj : j < s.wus.length) (hidle : ∀ wu ∈ s.wus, wu.co = .none)
@@ -281,13 +363,37 @@ theorem issued_back {c : Int} {pushed : List Runner} {x y : Model.Context × Buf
     Back y.1 W y.2.inside a ∧ y.2.queue = x.2.queue ∧ y.2.queueLength = x.2.queueLength ∧ y.2.inside = x.2.inside ++ pushed := by
   induction h with
   | nil x => intro W a hb; exact ⟨hb, rfl, rfl, by simp⟩
-  | cons r rs ctx bus y hz _ ih =>
+  | cons r rs ctx bus y hz _ _ ih =>
     intro W a hb
     have hb' := hb.issue r hz
     have : Back (addPendingRegisters ctx r.instr, bus.add r c).1 W (addPendingRegisters ctx r.instr, bus.add r c).2.inside a := by
       simp only [inside_add]; exact hb'
     obtain ⟨i1, i2, i3, i4⟩ := ih this
     exact ⟨i1, i2, i3, by rw [i4]; simp only [inside_add, List.append_assoc, List.singleton_append]⟩
+
+/-- a `ret` issued in cycle `c` is alone on the execute bus -/
+theorem issued_ret {c : Int} {pushed : List Runner} {x y : Model.Context × BufferedBus Runner}
+    (h : Issued c pushed x y) : (∀ e ∈ x.2.buffer, ¬ isRet e.2) →
+    ∀ e ∈ y.2.buffer, isRet e.2 → y.2.queue = [] ∧ y.2.buffer = [(c + 1, e.2)] := by
+  induction h with
+  | nil x => intro hn e he hr; exact absurd hr (hn e he)
+  | cons r rs ctx bus y hz hret hiss ih =>
+    intro hn
+    by_cases hr : isRet r
+    · obtain ⟨hemp, hrs⟩ := hret hr
+      subst hrs
+      cases hiss
+      simp only [BufferedBus.isEmpty, Bool.and_eq_true, beq_iff_eq, List.length_eq_zero_iff] at hemp
+      intro e he hre
+      simp only [BufferedBus.add, hemp.2, List.nil_append, List.mem_singleton] at he
+      subst he
+      simp only [BufferedBus.add, hemp.1, hemp.2, List.nil_append, and_self]
+    · apply ih
+      intro e he
+      simp only [BufferedBus.add, List.mem_append, List.mem_singleton] at he
+      rcases he with he | he
+      · exact hn e he
+      · subst he; exact hr
 
 /-- the state between two ticks -/
 structure Rel (app : App) (s : State) (a : Arch) : Prop where
@@ -307,14 +413,27 @@ structure Rel (app : App) (s : State) (a : Arch) : Prop where
   pend : s.cuPendings.items.length ≤ 1
   l1d : s.mmu.l1d.lines = []
   mode : s.mode = .normal
+  /-- no `ret` is left in the execute bus queue (when there is an execute unit to take it) -/
+  retQ : 1 ≤ s.eus.length → ∀ x ∈ s.executeBus.queue, ¬ isRet x
+  /-- a `ret` issued in the last cycle is alone on the execute bus and due -/
+  retBuf : ∀ e ∈ s.executeBus.buffer, isRet e.2 → s.executeBus.queue = [] ∧ s.executeBus.buffer = [(s.cycles + 1, e.2)]
+
+/-- the state between two ticks of the drain after a `ret` -/
+structure RelB (app : App) (s : State) (a : Arch) : Prop where
+  halt : ∃ c, stepArch Proofs.Mvp4.dc app a = .halt .ret c
+  back : Back s.ctx s.writeBus.inside s.executeBus.inside a
+  wus : ∀ wu ∈ s.wus, wu.co = .none
+  l1d : s.mmu.l1d.lines = []
+  mode : s.mode = .retB
 
 /-- what a tick has to do with the unpipelined run from `a0` -/
 def TickPost (app : App) (a0 : Arch) (s' : State) : Event → Prop
-  | .running => ∃ k a, Proofs.Mvp4.seqIter app k a0 = some a ∧ Rel app s' a
+  | .running => ∃ k a, Proofs.Mvp4.seqIter app k a0 = some a ∧ (Rel app s' a ∨ RelB app s' a)
   | .done .offEnd => ∃ k a, Proofs.Mvp4.seqIter app k a0 = some a ∧ (∃ c, stepArch Proofs.Mvp4.dc app a = .halt .offEnd c) ∧
       s'.ctx.Registers = a.ctx.Registers ∧ s'.ctx.Memory = a.ctx.Memory
   | .done .err => ∃ k a, Proofs.Mvp4.seqIter app k a0 = some a ∧ ∃ c, stepArch Proofs.Mvp4.dc app a = .halt .err c
-  | .done .ret => False
+  | .done .ret => ∃ k a, Proofs.Mvp4.seqIter app k a0 = some a ∧ (∃ c, stepArch Proofs.Mvp4.dc app a = .halt .ret c) ∧
+      s'.ctx.Registers = a.ctx.Registers ∧ s'.ctx.Memory = a.ctx.Memory
   | .done (.panic _) => True
 
 theorem stepArch_offEnd (app : App) (a : Arch) (n0 : Nat) (hpc : a.pc = pcOf n0) (hsm : app.instrs.length < 250)
@@ -380,6 +499,16 @@ structure Ph (app : App) (s : State) (a : Arch) : Prop where
   pend : s.cuPendings.items.length ≤ 1
   l1d : s.mmu.l1d.lines = []
   mode : s.mode = .normal
+  retQ : 1 ≤ s.eus.length → ∀ x ∈ s.executeBus.queue, isRet x → s.executeBus.queue = [x]
+  noRetBuf : ∀ e ∈ s.executeBus.buffer, ¬ isRet e.2
+
+theorem connect_split {α : Type} (b : BufferedBus α) (c : Int) :
+    ∃ moved, b.buffer = moved ++ (b.connect c).buffer ∧ (b.connect c).queue = b.queue ++ moved.map (·.2) := by
+  unfold BufferedBus.connect
+  split
+  · exact ⟨[], by simp, by simp⟩
+  · obtain ⟨m, h1, h2, _⟩ := Proofs.Bus.connectLoop_spec b.queueLength c b.buffer b.queue
+    exact ⟨m, h1, h2⟩
 
 theorem connected_ph (app : App) (s : State) (a : Arch) (hr : Rel app s a) : Ph app (connected s) a := by
   obtain ⟨n0, hpc, hf⟩ := hr.front
@@ -388,10 +517,35 @@ theorem connected_ph (app : App) (s : State) (a : Arch) (hr : Rel app s a) : Ph 
   have hxq : ((s.executeBus.connect (s.cycles + 1)).queue.length : Int) ≤ 2 := by
     have := connect_queue_le s.executeBus (s.cycles + 1) (by rw [hr.xql]; have := hr.xq; omega)
     rw [hr.xql] at this; exact this
-  refine ⟨⟨n0, hpc, ?_⟩, ?_, hr.eus, hr.wus, ?_, ?_, ?_, ?_, ?_, by (show (s.executeBus.connect (s.cycles + 1)).queue.length ≤ 2); omega, hr.eqw, hr.pend, hr.l1d, hr.mode⟩
+  -- the execute bus: a `ret` issued in the last cycle moves to the (empty) queue alone
+  have hret : (1 ≤ s.eus.length → ∀ x ∈ (s.executeBus.connect (s.cycles + 1)).queue, isRet x →
+        (s.executeBus.connect (s.cycles + 1)).queue = [x]) ∧
+      (∀ e ∈ (s.executeBus.connect (s.cycles + 1)).buffer, ¬ isRet e.2) := by
+    by_cases hex : ∃ e ∈ s.executeBus.buffer, isRet e.2
+    · obtain ⟨e, he, hre⟩ := hex
+      obtain ⟨hq0, hb0⟩ := hr.retBuf e he hre
+      have hc : s.executeBus.connect (s.cycles + 1) = { s.executeBus with queue := s.executeBus.queue ++ s.executeBus.buffer.map (·.2), buffer := [] } :=
+        connect_all _ _ (by rw [hq0, hb0, hr.xql]; simp only [List.length_nil, List.length_cons]; omega)
+          (by rw [hb0]; intro e' he'; simp only [List.mem_singleton] at he'; subst he'; exact Int.le_refl _)
+      rw [hc]
+      simp only [hq0, hb0, List.nil_append, List.map_cons, List.map_nil]
+      exact ⟨fun _ x hx _ => by simp only [List.mem_singleton] at hx; rw [hx], fun e' he' => by cases he'⟩
+    · have hnb : ∀ e ∈ s.executeBus.buffer, ¬ isRet e.2 := fun e he hre => hex ⟨e, he, hre⟩
+      obtain ⟨moved, hm1, hm2⟩ := connect_split s.executeBus (s.cycles + 1)
+      constructor
+      · intro hK x hx hrx
+        rw [hm2] at hx
+        rcases List.mem_append.mp hx with hx | hx
+        · exact absurd hrx (hr.retQ hK x hx)
+        · simp only [List.mem_map] at hx
+          obtain ⟨e, he, rfl⟩ := hx
+          exact absurd hrx (hnb e (by rw [hm1]; exact List.mem_append_left _ he))
+      · intro e he
+        exact hnb e (by rw [hm1]; exact List.mem_append_right _ he)
+  refine ⟨⟨n0, hpc, ?_⟩, ?_, hr.eus, hr.wus, ?_, ?_, ?_, ?_, ?_, by (show (s.executeBus.connect (s.cycles + 1)).queue.length ≤ 2); omega, hr.eqw, hr.pend, hr.l1d, hr.mode, hret.1, hret.2⟩
   · have hrun : runners (connected s) = runners s := by
       simp only [runners, connected, inside_connect]
-    refine ⟨by rw [hrun]; exact hf.chain, by rw [hrun]; exact hf.inRange, ?_, hf.clean, ?_, hf.duOk, hf.duRet⟩
+    refine ⟨by rw [hrun]; exact hf.chain, by rw [hrun]; exact hf.inRange, ?_, hf.clean, ?_, hf.duOk⟩
     · rw [hrun]; simp only [connected, inside_connect]; exact hf.pcs
     · simp only [connected, (connect_lengths _ _).2]; exact hf.dlen
   · simp only [connected, inside_connect]; exact hr.back
@@ -401,7 +555,7 @@ theorem connected_ph (app : App) (s : State) (a : Arch) (hr : Rel app s a) : Ph 
   · simp only [connected, (connect_lengths _ _).2]; exact hr.wbl
   · simp only [connected, (connect_lengths _ _).1]; exact hr.xql
 
-theorem fetch_ph (app : App) (hp : Prog app) (s s2 : State) (a : Arch) (h : Ph app s a) (hr : fetchCycle app s = .ok s2) :
+theorem fetch_ph (app : App) (hp : ProgR app) (s s2 : State) (a : Arch) (h : Ph app s a) (hr : fetchCycle app s = .ok s2) :
     Ph app s2 a := by
   obtain ⟨n0, hpc, hf⟩ := h.front
   unfold fetchCycle at hr
@@ -413,150 +567,241 @@ theorem fetch_ph (app : App) (hp : Prog app) (s s2 : State) (a : Arch) (h : Ph a
     simp only [pure, Except.pure, Except.ok.injEq] at hr
     subst hr
     obtain ⟨e1, e2, e3, e4⟩ := fetchCore_pcs app hp.small _ _ _ _ _ _ _ _ hf.clean hf.dlen hf.pcs hv
-    exact ⟨⟨n0, hpc, ⟨hf.chain, hf.inRange, e1, e2, e3, hf.duOk, hf.duRet⟩⟩, h.back, h.eus, h.wus, h.wbuf, h.wqk, h.wql, h.wbl,
-      h.xql, h.xq, h.eqw, h.pend, by (show mmu'.l1d.lines = []); rw [e4]; exact h.l1d, h.mode⟩
+    exact ⟨⟨n0, hpc, ⟨hf.chain, hf.inRange, e1, e2, e3, hf.duOk⟩⟩, h.back, h.eus, h.wus, h.wbuf, h.wqk, h.wql, h.wbl,
+      h.xql, h.xq, h.eqw, h.pend, by (show mmu'.l1d.lines = []); rw [e4]; exact h.l1d, h.mode, h.retQ, h.noRetBuf⟩
 
-theorem decode_ph (app : App) (hp : Prog app) (s s3 : State) (a : Arch) (h : Ph app s a) (hr : decodeCycle app s = .ok s3) :
+theorem decode_ph (app : App) (hp : ProgR app) (s s3 : State) (a : Arch) (h : Ph app s a) (hr : decodeCycle app s = .ok s3) :
     Ph app s3 a := by
   obtain ⟨n0, hpc, hf⟩ := h.front
   unfold decodeCycle decodeCore at hr
-  simp only [hf.duRet, hf.duOk, Bool.false_eq_true, if_false, bind, Except.bind] at hr
-  split at hr
-  · cases hr
-  · rename_i v hv
-    obtain ⟨du', d', c'⟩ := v
-    simp only [pure, Except.pure, Except.ok.injEq] at hr
+  by_cases hdr : s.du.ret = true
+  · simp only [hdr, if_true, bind, Except.bind, pure, Except.pure, Except.ok.injEq] at hr
     subst hr
-    have hchain := hf.chain
-    simp only [runners] at hchain
-    rw [chain_append] at hchain
-    have hin := hf.inRange
-    have hpcs := hf.pcs
-    simp only [runners, List.length_append] at hin hpcs
-    have hpcs' : Pcs app (n0 + (s.executeBus.inside ++ s.cuPendings.items.map (·.2)).length + s.controlBus.inside.length)
-        s.fu s.decodeBus.inside 0 := by
-      have e : n0 + (s.executeBus.inside ++ s.cuPendings.items.map (·.2)).length + s.controlBus.inside.length =
-          n0 + (s.executeBus.inside.length + (s.cuPendings.items.map (·.2)).length + s.controlBus.inside.length) := by
+    exact ⟨⟨n0, hpc, hf⟩, h.back, h.eus, h.wus, h.wbuf, h.wqk, h.wql, h.wbl, h.xql, h.xq, h.eqw, h.pend, h.l1d, h.mode, h.retQ, h.noRetBuf⟩
+  · simp only [hdr, hf.duOk, Bool.false_eq_true, if_false, bind, Except.bind] at hr
+    split at hr
+    · cases hr
+    · rename_i v hv
+      obtain ⟨du', d', c'⟩ := v
+      simp only [pure, Except.pure, Except.ok.injEq] at hr
+      subst hr
+      have hchain := hf.chain
+      simp only [runners] at hchain
+      rw [chain_append] at hchain
+      have hin := hf.inRange
+      have hpcs := hf.pcs
+      simp only [runners, List.length_append] at hin hpcs
+      have hpcs' : Pcs app (n0 + (s.executeBus.inside ++ s.cuPendings.items.map (·.2)).length + s.controlBus.inside.length)
+          s.fu s.decodeBus.inside 0 := by
+        have e : n0 + (s.executeBus.inside ++ s.cuPendings.items.map (·.2)).length + s.controlBus.inside.length =
+            n0 + (s.executeBus.inside.length + (s.cuPendings.items.map (·.2)).length + s.controlBus.inside.length) := by
+          simp only [List.length_append]; omega
+        rw [e]; exact hpcs
+      have hin' : n0 + (s.executeBus.inside ++ s.cuPendings.items.map (·.2)).length + s.controlBus.inside.length ≤ app.instrs.length := by
         simp only [List.length_append]; omega
-      rw [e]; exact hpcs
-    have hin' : n0 + (s.executeBus.inside ++ s.cuPendings.items.map (·.2)).length + s.controlBus.inside.length ≤ app.instrs.length := by
-      simp only [List.length_append]; omega
-    obtain ⟨e1, e2, e3, e4, e5⟩ := decodeLoop_front app hp.small hp.sl s.ctx s.cycles s.fu
-      (n0 + (s.executeBus.inside ++ s.cuPendings.items.map (·.2)).length) _ s.du du' s.decodeBus d' s.controlBus c'
-      hchain.2 hin' hpcs' hv
-    subst e4
-    refine ⟨⟨n0, hpc, ⟨?_, ?_, ?_, hf.clean, by (show d'.bufferLength = 2); rw [e5]; exact hf.dlen, hf.duOk, hf.duRet⟩⟩,
-      h.back, h.eus, h.wus, h.wbuf, h.wqk, h.wql, h.wbl, h.xql, h.xq, h.eqw, h.pend, h.l1d, h.mode⟩
-    · simp only [runners]; rw [chain_append]; exact ⟨hchain.1, e1⟩
-    · simp only [runners, List.length_append] at e2 ⊢; omega
-    · simp only [runners, List.length_append] at e3 ⊢
-      rw [Nat.add_assoc] at e3; exact e3
+      obtain ⟨e1, e2, e3, e4, e5⟩ := decodeLoop_front app hp.small hp.sl s.ctx s.cycles s.fu
+        (n0 + (s.executeBus.inside ++ s.cuPendings.items.map (·.2)).length) _ s.du du' s.decodeBus d' s.controlBus c'
+        hchain.2 hin' hpcs' hv
+      refine ⟨⟨n0, hpc, ⟨?_, ?_, ?_, hf.clean, by (show d'.bufferLength = 2); rw [e5]; exact hf.dlen,
+          by (show du'.pendingBranchResolution = false); rw [e4]; exact hf.duOk⟩⟩,
+        h.back, h.eus, h.wus, h.wbuf, h.wqk, h.wql, h.wbl, h.xql, h.xq, h.eqw, h.pend, h.l1d, h.mode, h.retQ, h.noRetBuf⟩
+      · simp only [runners]; rw [chain_append]; exact ⟨hchain.1, e1⟩
+      · simp only [runners, List.length_append] at e2 ⊢; omega
+      · simp only [runners, List.length_append] at e3 ⊢
+        rw [Nat.add_assoc] at e3; exact e3
 
-theorem control_ph (app : App) (s : State) (a : Arch) (h : Ph app s a) : Ph app (controlCycle s) a := by
+/-- the control unit: the result is ready for the execute units -/
+theorem control_mid (app : App) (s : State) (a : Arch) (h : Ph app s a) : Mid app (controlCycle s) a 0 ∧
+    (∀ wu ∈ (controlCycle s).wus, wu.co = .none) ∧ (controlCycle s).writeBus.queue.length ≤ (controlCycle s).wus.length ∧
+    (controlCycle s).writeBus.queueLength = 2 ∧ (controlCycle s).executeBus.queueLength = 2 ∧
+    (controlCycle s).executeBus.queue.length ≤ 2 ∧ (controlCycle s).eus.length = (controlCycle s).wus.length ∧
+    (controlCycle s).cuPendings.items.length ≤ 1 ∧ (controlCycle s).mmu.l1d.lines = [] ∧ (controlCycle s).mode = .normal := by
   obtain ⟨n0, hpc, hf⟩ := h.front
   obtain ⟨pushed, i1, i2, i3, fr⟩ := controlCycle_spec s h.pend
   obtain ⟨b1, b2, b3, b4⟩ := issued_back i1 h.back
-  simp only at b1 b2 b3 b4
+  have hrb := issued_ret i1 h.noRetBuf
+  simp only at b1 b2 b3 b4 hrb
   have hrun : runners (controlCycle s) = runners s := by
     simp only [runners, b4, List.append_assoc]
     rw [← List.append_assoc pushed, i2]
-  refine ⟨⟨n0, hpc, ⟨by rw [hrun]; exact hf.chain, by rw [hrun]; exact hf.inRange, ?_, by rw [fr.fu]; exact hf.clean,
-      by rw [fr.decodeBus]; exact hf.dlen, by rw [fr.du]; exact hf.duOk, by rw [fr.du]; exact hf.duRet⟩⟩, ?_,
-    by rw [fr.eus]; exact h.eus, by rw [fr.wus]; exact h.wus, by rw [fr.writeBus]; exact h.wbuf,
-    by rw [fr.writeBus, fr.wus]; exact h.wqk, by rw [fr.writeBus]; exact h.wql, by rw [fr.writeBus]; exact h.wbl,
+  refine ⟨⟨⟨n0, hpc, ⟨by rw [hrun]; exact hf.chain, by rw [hrun]; exact hf.inRange, ?_, by rw [fr.fu]; exact hf.clean,
+      by rw [fr.decodeBus]; exact hf.dlen, by rw [fr.du]; exact hf.duOk⟩⟩, ?_, by rw [fr.eus]; exact h.eus, ?_, ?_, ?_, ?_, ?_, ?_⟩,
+    by rw [fr.wus]; exact h.wus, by rw [fr.writeBus, fr.wus]; exact h.wqk, by rw [fr.writeBus]; exact h.wql,
     by rw [b3]; exact h.xql, by rw [b2]; exact h.xq, by rw [fr.eus, fr.wus]; exact h.eqw, i3, by rw [fr.mmu]; exact h.l1d,
     by rw [fr.mode]; exact h.mode⟩
   · rw [hrun, fr.fu, fr.decodeBus]; exact hf.pcs
   · rw [fr.writeBus]; exact b1
+  · rw [fr.writeBus, h.wbuf]; exact Nat.le_refl _
+  · rw [fr.writeBus, h.wbuf, b2]; simp only [List.length_nil, Nat.zero_add]; exact h.xq
+  · rw [fr.writeBus, h.wbuf]; intro e he; cases he
+  · rw [fr.writeBus]; exact h.wbl
+  · intro hK x hx hrx
+    rw [b2] at hx ⊢
+    rw [fr.eus] at hK
+    exact ⟨h.retQ hK x hx hrx, rfl⟩
+  · rw [fr.cycles]; exact hrb
 
-theorem ph_mid (app : App) (s : State) (a : Arch) (h : Ph app s a) : Mid app s a 0 :=
-  ⟨h.front, h.back, h.eus, by rw [h.wbuf]; exact Nat.le_refl _, by rw [h.wbuf]; simp only [List.length_nil, Nat.zero_add]; exact h.xq,
-   (by rw [h.wbuf]; intro e he; cases he), h.wbl⟩
+/-! ### the drain after a `ret` -/
 
-/-- **one tick is a number of steps of the unpipelined machine** (straight-line register-only programs, any number of
-execute and write units) -/
-theorem cycleM_sim (app : App) (hp : Prog app) (a0 : Arch) (s s' : State) (a : Arch) (k : Nat) (ev : Event)
-    (hk : Proofs.Mvp4.seqIter app k a0 = some a) (hr : Rel app s a) (h : cycleM app s = .ok (s', ev)) :
-    TickPost app a0 s' ev := by
-  rw [cycleM_normal_eq app s hr.mode] at h
-  simp only [bind, Except.bind] at h
-  have ph1 := connected_ph app s a hr
+theorem goRetB_sim (app : App) (a0 : Arch) (s s' : State) (a : Arch) (k : Nat) (ev : Event)
+    (hk : Proofs.Mvp4.seqIter app k a0 = some a) (hh : ∃ c, stepArch Proofs.Mvp4.dc app a = .halt .ret c)
+    (hb : Back s.ctx s.writeBus.inside s.executeBus.inside a) (hw : ∀ wu ∈ s.wus, wu.co = .none)
+    (hl : s.mmu.l1d.lines = []) (h : goRetB s = .ok (s', ev)) : TickPost app a0 s' ev := by
+  unfold goRetB at h
   split at h
-  · cases h
-  · rename_i s2 h2
-    have ph2 := fetch_ph app hp _ s2 a ph1 h2
+  · simp only [pure, Except.pure, Except.ok.injEq, Prod.mk.injEq] at h
+    obtain ⟨rfl, rfl⟩ := h
+    exact ⟨k, a, hk, Or.inr ⟨hh, hb, hw, hl, rfl⟩⟩
+  · rename_i hc
+    simp only [Bool.or_eq_true, Bool.not_eq_true', not_or, Bool.not_eq_false] at hc
+    unfold finish at h
+    rw [flush_empty s.mmu s.ctx.Memory hl] at h
+    simp only [bind, Except.bind, pure, Except.pure, Except.ok.injEq, Prod.mk.injEq] at h
+    obtain ⟨rfl, rfl⟩ := h
+    have hwi := inside_nil_of_isEmpty _ hc.2
+    have hregs := hb.regs
+    rw [hwi] at hregs
+    exact ⟨k, a, hk, hh, hregs.symm, hb.mem.symm⟩
+
+theorem cycleM_retB_eq (app : App) (s : State) (hm : s.mode = .retB) :
+    cycleM app s = (do
+      let s ← wusCycle s
+      let s := { s with cycles := s.cycles + 1 }
+      goRetB { s with writeBus := s.writeBus.connect s.cycles }) := by
+  unfold cycleM
+  split
+  · rename_i hh; rw [hm] at hh; cases hh
+  · rename_i hh; rw [hm] at hh; cases hh
+  · rfl
+  · rename_i hh; rw [hm] at hh; cases hh
+
+theorem eus_idle_any (s : State) (h : ∀ eu ∈ s.eus, eu.co = .none ∧ eu.memory = []) :
+    s.eus.any (fun eu => !eu.isEmpty) = false := by
+  simp only [List.any_eq_false, Bool.not_eq_true', Bool.not_eq_false', ExecUnit.isEmpty, beq_iff_eq]
+  intro eu he; simp only [(h eu he).1]; decide
+
+/-- **one tick is a number of steps of the unpipelined machine** (straight-line register-only programs that may `ret`,
+any number of execute and write units) -/
+theorem cycleM_simR (app : App) (hp : ProgR app) (a0 : Arch) (s s' : State) (a : Arch) (k : Nat) (ev : Event)
+    (hk : Proofs.Mvp4.seqIter app k a0 = some a) (hr : Rel app s a ∨ RelB app s a) (h : cycleM app s = .ok (s', ev)) :
+    TickPost app a0 s' ev := by
+  rcases hr with hr | hr
+  · rw [cycleM_normal_eq app s hr.mode] at h
+    simp only [bind, Except.bind] at h
+    have ph1 := connected_ph app s a hr
     split at h
     · cases h
-    · rename_i s3 h3
-      have ph3 := decode_ph app hp s2 s3 a ph2 h3
-      have ph4 := control_ph app s3 a ph3
-      have hmid := ph_mid app _ a ph4
+    · rename_i s2 h2
+      have ph2 := fetch_ph app hp _ s2 a ph1 h2
       split at h
       · cases h
-      · rename_i v hv
-        obtain ⟨s5, acc⟩ := v
-        simp only at h
-        rcases eusCycle_sim app hp a0 _ 0 _ s5 {} acc k a (by omega) hmid hk rfl hv with ⟨rfl, k', a', hk', hm5, keep⟩ | ⟨herr, k', a', hk', c, hc⟩
-        · -- no error: the write units, then the end of the tick
-          simp only [afterEus, Bool.false_eq_true, if_false, bind, Except.bind] at h
-          have hwus5 : ∀ wu ∈ s5.wus, wu.co = .none := by rw [keep.wus]; exact ph4.wus
-          split at h
-          · cases h
-          · rename_i s6 h6
-            obtain ⟨b6, wk, q6⟩ := wusCycle_sim s5 s6 a' hwus5 hm5.back h6
-            obtain ⟨n0, hpc, hf5⟩ := hm5.front
-            have hf6 : Front app s6 n0 := hf5.of_eq wk.executeBus wk.cuPendings wk.controlBus wk.fu wk.decodeBus wk.du
-            have hq6 : s6.writeBus.queue = [] := by
-              have h1 : s5.writeBus.queue.length ≤ s5.wus.length := by rw [keep.wq, keep.wus]; exact ph4.wqk
-              exact List.length_eq_zero_iff.mp (by omega)
-            have hl1d : s6.mmu.l1d.lines = [] := by rw [wk.mmu, keep.mmu]; exact ph4.l1d
-            have hcyc : s6.cycles = s5.cycles := wk.cycles
+      · rename_i s3 h3
+        have ph3 := decode_ph app hp s2 s3 a ph2 h3
+        obtain ⟨hmid, c_wus, c_wqk, c_wql, c_xql, c_xq, c_eqw, c_pend, c_l1d, c_mode⟩ := control_mid app s3 a ph3
+        split at h
+        · cases h
+        · rename_i v hv
+          obtain ⟨s5, acc⟩ := v
+          simp only at h
+          rcases eusCycle_sim app hp a0 _ 0 _ s5 {} acc k a (by omega) hmid hk rfl hv with
+            ⟨rfl, k', a', hk', hm5, keep⟩ | ⟨herr, k', a', hk', c, hc⟩ | ⟨rfl, k', a', hk', hret⟩
+          · -- no error, no `ret`: the write units, then the end of the tick
+            simp only [afterEus, Bool.false_eq_true, if_false, bind, Except.bind] at h
+            have hwus5 : ∀ wu ∈ s5.wus, wu.co = .none := by rw [keep.wus]; exact c_wus
             split at h
-            · -- everything is empty: the run has fallen off the end
-              rename_i hemp
-              simp only [isEmpty, Bool.and_eq_true, decide_eq_true_eq] at hemp
-              obtain ⟨⟨⟨⟨⟨⟨⟨hcomp, hcu⟩, _⟩, hd⟩, hcb⟩, hxb⟩, hwb⟩, _⟩ := hemp
-              unfold finish at h
-              rw [flush_empty s6.mmu s6.ctx.Memory hl1d] at h
-              simp only [bind, Except.bind, pure, Except.pure, Except.ok.injEq, Prod.mk.injEq] at h
-              obtain ⟨rfl, rfl⟩ := h
-              have hrn : runners s6 = [] := by
-                have : s6.cuPendings.items = [] := by
-                  simp only [Queue.len] at hcu
-                  exact List.length_eq_zero_iff.mp (by omega)
-                simp only [runners, inside_nil_of_isEmpty _ hxb, inside_nil_of_isEmpty _ hcb, this, List.map_nil, List.append_nil]
-              have hdn := inside_nil_of_isEmpty _ hd
-              obtain ⟨h0, p1, p2, p3, p4, p5, p6, p7⟩ := hf6.pcs
-              rw [hdn] at p2 p7
-              rw [hrn] at p3
-              simp only [List.length_nil, Nat.add_zero] at p2 p3 p7
-              have hin := hf6.inRange
-              rw [hrn] at hin
-              simp only [List.length_nil, Nat.add_zero] at hin
-              have hge : app.instrs.length ≤ n0 := by
-                have := p7 hcomp
-                rcases p3 with p3 | p3
-                · omega
-                · exact p3.2
-              have hwi := inside_nil_of_isEmpty _ hwb
-              have hregs := b6.regs
-              rw [hwi] at hregs
-              exact ⟨k', a', hk', stepArch_offEnd app a' n0 hpc hp.small hge hin, hregs.symm, b6.mem.symm⟩
-            · simp only [pure, Except.pure, Except.ok.injEq, Prod.mk.injEq] at h
-              obtain ⟨rfl, rfl⟩ := h
-              refine ⟨k', a', hk', ⟨⟨n0, hpc, hf6⟩, b6, by rw [wk.eus]; exact hm5.eus, by rw [wk.wus]; exact hwus5, hq6, ?_, ?_, ?_, ?_, ?_, ?_, ?_, ?_, ?_, hl1d, ?_⟩⟩
-              · rw [wk.wbuf]; have := hm5.room; omega
-              · rw [wk.wbuf, wk.wus, keep.wus]; have h1 := hm5.wbi; have h2 := ph4.eqw; omega
-              · rw [wk.wbuf, hcyc]; exact hm5.stamps
-              · rw [wk.wql, keep.wql]; exact ph4.wql
-              · rw [wk.wbl]; exact hm5.wbl
-              · rw [wk.executeBus, keep.xql]; exact ph4.xql
-              · rw [wk.executeBus]; exact Nat.le_trans keep.xq ph4.xq
-              · rw [wk.eus, wk.wus, keep.eul, keep.wus]; exact ph4.eqw
-              · rw [wk.cuPendings, keep.pend]; exact ph4.pend
-              · rw [wk.mode, keep.mode]; exact ph4.mode
-        · simp only [afterEus, herr, if_true, pure, Except.pure, Except.ok.injEq, Prod.mk.injEq] at h
-          obtain ⟨rfl, rfl⟩ := h
-          exact ⟨k', a', hk', c, hc⟩
+            · cases h
+            · rename_i s6 h6
+              obtain ⟨b6, wk, q6⟩ := wusCycle_sim s5 s6 a' hwus5 hm5.back h6
+              obtain ⟨n0, hpc, hf5⟩ := hm5.front
+              have hf6 : Front app s6 n0 := hf5.of_eq wk.executeBus wk.cuPendings wk.controlBus wk.fu wk.decodeBus wk.du
+              have hq6 : s6.writeBus.queue = [] := by
+                have h1 : s5.writeBus.queue.length ≤ s5.wus.length := by rw [keep.wq, keep.wus]; exact c_wqk
+                exact List.length_eq_zero_iff.mp (by omega)
+              have hl1d : s6.mmu.l1d.lines = [] := by rw [wk.mmu, keep.mmu]; exact c_l1d
+              have hcyc : s6.cycles = s5.cycles := wk.cycles
+              split at h
+              · -- everything is empty: the run has fallen off the end
+                rename_i hemp
+                simp only [isEmpty, Bool.and_eq_true, decide_eq_true_eq] at hemp
+                obtain ⟨⟨⟨⟨⟨⟨⟨hcomp, hcu⟩, _⟩, hd⟩, hcb⟩, hxb⟩, hwb⟩, _⟩ := hemp
+                unfold finish at h
+                rw [flush_empty s6.mmu s6.ctx.Memory hl1d] at h
+                simp only [bind, Except.bind, pure, Except.pure, Except.ok.injEq, Prod.mk.injEq] at h
+                obtain ⟨rfl, rfl⟩ := h
+                have hrn : runners s6 = [] := by
+                  have : s6.cuPendings.items = [] := by
+                    simp only [Queue.len] at hcu
+                    exact List.length_eq_zero_iff.mp (by omega)
+                  simp only [runners, inside_nil_of_isEmpty _ hxb, inside_nil_of_isEmpty _ hcb, this, List.map_nil, List.append_nil]
+                have hdn := inside_nil_of_isEmpty _ hd
+                obtain ⟨h0, p1, p2, p3, p4, p5, p6, p7⟩ := hf6.pcs
+                rw [hdn] at p2 p7
+                rw [hrn] at p3
+                simp only [List.length_nil, Nat.add_zero] at p2 p3 p7
+                have hin := hf6.inRange
+                rw [hrn] at hin
+                simp only [List.length_nil, Nat.add_zero] at hin
+                have hge : app.instrs.length ≤ n0 := by
+                  have := p7 hcomp
+                  rcases p3 with p3 | p3
+                  · omega
+                  · exact p3.2
+                have hwi := inside_nil_of_isEmpty _ hwb
+                have hregs := b6.regs
+                rw [hwi] at hregs
+                exact ⟨k', a', hk', stepArch_offEnd app a' n0 hpc hp.small hge hin, hregs.symm, b6.mem.symm⟩
+              · simp only [pure, Except.pure, Except.ok.injEq, Prod.mk.injEq] at h
+                obtain ⟨rfl, rfl⟩ := h
+                refine ⟨k', a', hk', Or.inl ⟨⟨n0, hpc, hf6⟩, b6, by rw [wk.eus]; exact hm5.eus, by rw [wk.wus]; exact hwus5, hq6,
+                  ?_, ?_, ?_, ?_, ?_, ?_, ?_, ?_, ?_, hl1d, ?_, ?_, ?_⟩⟩
+                · rw [wk.wbuf]; have := hm5.room; omega
+                · rw [wk.wbuf, wk.wus, keep.wus]; have h1 := hm5.wbi; have h2 := c_eqw; omega
+                · rw [wk.wbuf, hcyc]; exact hm5.stamps
+                · rw [wk.wql, keep.wql]; exact c_wql
+                · rw [wk.wbl]; exact hm5.wbl
+                · rw [wk.executeBus, keep.xql]; exact c_xql
+                · rw [wk.executeBus]; exact Nat.le_trans keep.xq c_xq
+                · rw [wk.eus, wk.wus, keep.eul, keep.wus]; exact c_eqw
+                · rw [wk.cuPendings, keep.pend]; exact c_pend
+                · rw [wk.mode, keep.mode]; exact c_mode
+                · intro hK x hx hrx
+                  rw [wk.eus] at hK
+                  rw [wk.executeBus] at hx
+                  have := (hm5.retQ hK x hx hrx).2
+                  rw [keep.eul] at hK
+                  omega
+                · rw [wk.executeBus, hcyc]; exact hm5.retBuf
+          · simp only [afterEus, herr, if_true, pure, Except.pure, Except.ok.injEq, Prod.mk.injEq] at h
+            obtain ⟨rfl, rfl⟩ := h
+            exact ⟨k', a', hk', c, hc⟩
+          · -- a `ret` was executed: the write units, then the drain
+            simp only [afterEus, Bool.false_eq_true, if_false, if_true, bind, Except.bind] at h
+            have hwus5 : ∀ wu ∈ s5.wus, wu.co = .none := by rw [hret.keep.wus]; exact c_wus
+            split at h
+            · cases h
+            · rename_i s6 h6
+              obtain ⟨b6, wk, _⟩ := wusCycle_sim s5 s6 a' hwus5 hret.back h6
+              have hidle6 : ∀ eu ∈ s6.eus, eu.co = .none ∧ eu.memory = [] := by rw [wk.eus]; exact hret.eus
+              unfold goRetA at h
+              simp only [eus_idle_any s6 hidle6, Bool.false_eq_true, if_false] at h
+              refine goRetB_sim app a0 _ s' a' k' ev hk' hret.halt ?_ (by (show ∀ wu ∈ s6.wus, wu.co = .none); rw [wk.wus]; exact hwus5)
+                (by (show s6.mmu.l1d.lines = []); rw [wk.mmu, hret.keep.mmu]; exact c_l1d) h
+              simp only [inside_connect]; exact b6
+  · -- the drain after a `ret`
+    rw [cycleM_retB_eq app s hr.mode] at h
+    simp only [bind, Except.bind] at h
+    split at h
+    · cases h
+    · rename_i s1 h1
+      obtain ⟨b1, wk, _⟩ := wusCycle_sim s s1 a hr.wus hr.back h1
+      refine goRetB_sim app a0 _ s' a k ev hk hr.halt ?_ (by (show ∀ wu ∈ s1.wus, wu.co = .none); rw [wk.wus]; exact hr.wus)
+        (by (show s1.mmu.l1d.lines = []); rw [wk.mmu]; exact hr.l1d) h
+      simp only [inside_connect]; exact b1
+
+/-- the same for programs without `ret`, from the relation between normal ticks (the statement of package R60) -/
+theorem cycleM_sim (app : App) (hp : Prog app) (a0 : Arch) (s s' : State) (a : Arch) (k : Nat) (ev : Event)
+    (hk : Proofs.Mvp4.seqIter app k a0 = some a) (hr : Rel app s a) (h : cycleM app s = .ok (s', ev)) :
+    TickPost app a0 s' ev :=
+  cycleM_simR app hp.toR a0 s s' a k ev hk (Or.inl hr) h
 
 end Proofs.Mvp60Sl
